@@ -93,6 +93,10 @@ class Harness:
             return Poly.pi()
         return np.pi
 
+    def numeric_pi(self):
+        """keep math.pi / np.pi as the float (the code under contract hands its angles to a native library)"""
+        self.ctx.sym_pi = False
+
     def assume(self, cond):
         if not self.symbolic:
             if not bool(cond):
